@@ -201,7 +201,7 @@ def t_cast_cast(p):
     sig = {TP.FLOAT: 24, TP.DOUBLE: 53, TP.FLOAT16: 11}
     big = {TP.INT16: [2049, 4099, -2049, 32767, 5], TP.INT32: [16777217, -16777217, 33554435, 2147483647, 5],
            TP.UINT32: [16777217, 4294967295, 33554435, 7], TP.INT64: [2**53 + 1, -(2**53 + 1), 16777217, 2**60 + 2**36 + 1, 3],
-           TP.UINT64: [2**53 + 1, 16777217, 2**63 + 2**11 + 1, 3]}
+           TP.UINT64: [2**53 + 1, 16777217, 2**62 + 2**11 + 1, 3]}
     for t1, vals in big.items():
         for t2 in (TP.FLOAT, TP.DOUBLE, TP.FLOAT16):
             if t2 == TP.FLOAT16 and t1 != TP.INT16:
